@@ -780,6 +780,19 @@ pub fn iteration_cases() -> Vec<String> {
     "sort(for i in 1..60 return if modulo(i, 3) = 0 then null else i, function(x, y) x < y)",
     // a chain of entries each made of the one before: what an error value carries along must not grow without bound
     "{a00: 1 / \"x\", a01: a00 / a00, a02: a01 / a01, a03: a02 / a02, a04: a03 / a03, a05: a04 / a04, a06: a05 / a05, a07: a06 / a06, a08: a07 / a07, a09: a08 / a08, a10: a09 / a09, a11: a10 / a10, a12: a11 / a11, a13: a12 / a12, a14: a13 / a13, a15: a14 / a14, a16: a15 / a15, a17: a16 / a16, a18: a17 / a17, a19: a18 / a18, a20: a19 / a19, a21: a20 / a20, a22: a21 / a21, a23: a22 / a22, a24: a23 / a23, a25: a24 / a24, a26: a25 / a25, a27: a26 / a26, a28: a27 / a27, a29: a28 / a28}.a29",
+    // a value grown by applying an operator to the result of the step before, far beyond what a literal can denote
+    "for i in 1..40 return if i = 1 then @\"P18446744073709551615D\" else partial[-1] + partial[-1]",
+    "for i in 1..40 return if i = 1 then @\"-P18446744073709551615D\" else partial[-1] + partial[-1]",
+    "for i in 1..40 return if i = 1 then @\"P18446744073709551615DT23H59M59.999999999S\" else partial[-1] - (-partial[-1])",
+    "for i in 1..40 return if i = 1 then @\"-P18446744073709551615D\" else -(partial[-1] + partial[-1])",
+    "(for i in 1..40 return if i = 1 then @\"P18446744073709551615D\" else partial[-1] + partial[-1])[-1].days",
+    "string((for i in 1..40 return if i = 1 then @\"P18446744073709551615D\" else partial[-1] + partial[-1])[-1])",
+    "for i in 1..70 return if i = 1 then @\"P9223372036854775807M\" else partial[-1] + partial[-1]",
+    "for i in 1..70 return if i = 1 then @\"P999999999Y\" else partial[-1] + partial[-1]",
+    "for i in 1..40 return if i = 1 then 9E6144 else partial[-1] * partial[-1]",
+    "for i in 1..40 return if i = 1 then 1E-6143 else partial[-1] * partial[-1]",
+    "for i in 1..40 return if i = 1 then date and time(\"999999999-12-31T23:59:59Z\") else partial[-1] + @\"P18446744073709551615D\"",
+    "for i in 1..40 return if i = 1 then date(\"999999999-12-31\") else partial[-1] + @\"P999999999Y\"",
     // recursion of a user-defined function: bounded depths, and without a base case
     "{f: function(n) if n <= 0 then 0 else 1 + f(n - 1), r: f(10)}.r",
     "{f: function(n) if n <= 0 then 0 else 1 + f(n - 1), r: f(100)}.r",
